@@ -23,11 +23,20 @@ ASSUMPTIONS = [
     "object vectors are generated only from values whose str() order equals their natural order (strings, bools), because the library sorts objects by str(x) while rank uses <",
     "strings containing U+0000 are not generated (fixed-width NumPy strings strip trailing NULs)",
 ]
-REACH = {"quick": {"len:0": 100, "na:all": 100, "kind:lstr": 100, "kind:ostr": 50, "fn:rank": 1000, "fn:sort": 1000, "fn:unique": 500}}
+REACH = {"quick": {"len:0": 100, "na:all": 100, "kind:lstr": 100, "kind:ostr": 50, "fn:rank": 1000, "fn:sort": 1000, "fn:unique": 500, "tag:big": 10, "after-inplace-edit": 1000}}
 
 KINDS = ["bool", "int", "float", "str", "str", "lstr", "ustr", "date", "datetime", "ostr", "obool"]
 
 def generate(rng, tier):
+    if rng.random() < 0.002:
+        n = rng.choice([10050, 13000])
+        head = [rng.choice(["a", "ab", "b", "abc", "zz"]) for _ in range(n - 40)]
+        tail = [rng.choice(["abcdefgh1", "abcdefgh0", "abcdefgz", "abcd"]) if rng.random() < 0.5 else ("y" * 55) + rng.choice(["c", "a", "b"]) for _ in range(40)]
+        fn = rng.choice(["sort", "rank", "unique"])
+        case = {"kind": "str", "values": head + tail, "fn": fn, "tags": ["big"]}
+        if fn == "sort": case["dir"] = rng.choice([1, -1])
+        if fn == "rank": case["method"] = rng.choice(["min", "max"])
+        return case
     kind = rng.choice(KINDS)
     n = rng.choice([0, 0, 1, 2, 3, rng.randint(3, 12), rng.randint(3, 12), rng.randint(13, 30)])
     na = rng.choice(["none", "none", "some", "first", "last", "all", "some"])
@@ -43,6 +52,9 @@ def generate(rng, tier):
         case["dir"] = rng.choice([1, -1])
     if fn == "rank":
         case["method"] = rng.choice(["min", "max", "ordinal"])
+    if n and rng.random() < 0.3 and kind in ("str", "int", "float", "date", "bool"):
+        p2 = [v for v in gen.pool(rng, kind, 0.0) if not (kind == "str" and len(v) > max([len(x) for x in values if x] + [1]) and False)]
+        case["edit"] = (rng.randrange(n), rng.choice(p2))
     return case
 
 def sort_key(cell):
@@ -50,6 +62,19 @@ def sort_key(cell):
     return cell[1]
 
 def execute(case):
+    r = _execute(case, None)
+    if r["violations"] or not case.get("edit") or not case["values"]:
+        return r
+    # history clause: the same Vector object is edited in place and used again -- results must follow the current contents
+    i, v = case["edit"]
+    vals2 = list(case["values"])
+    vals2[i % len(vals2)] = v
+    r2 = _execute(dict(case, values=vals2), (case["values"], i % len(vals2), v))
+    r["classes"] = r["classes"] + ["after-inplace-edit"]
+    r["violations"] = [{"key": "after-inplace-edit:" + x["key"], "msg": "after calling the function once and assigning one element in place: " + x["msg"]} for x in r2["violations"]]
+    return r
+
+def _execute(case, history):
     import dataiter as di
     kind, values, fn = case["kind"], case["values"], case["fn"]
     n = len(values)
@@ -61,7 +86,16 @@ def execute(case):
     res.cls(f"fn:{fn}", f"kind:{kind}", f"len:{n if n < 3 else '3+'}", f"na:{nacls}")
     for t in case["tags"]:
         res.cls("tag:" + t)
-    vec = di.Vector(gen.np_column(kind, values))
+    if history is None:
+        vec = di.Vector(gen.np_column(kind, values))
+    else:
+        old_values, pos, newv = history
+        vec = di.Vector(gen.np_column(kind, old_values))
+        try:
+            vec.sort(dir=1); vec.rank(method="min"); vec.unique()
+        except Exception:
+            pass
+        np.asarray(vec)[pos] = gen.np_column(kind, [newv])[0]
     pre = canon.col_cells(vec)
     want_pre = gen.expected_cells(kind, values)
     if not canon.cells_eq(pre, want_pre):
@@ -95,14 +129,16 @@ def execute(case):
         keys = {i: sort_key(pre[i]) for i in idx_nonna}
         exp = [None] * n
         nn = len(idx_nonna)
+        import bisect
+        skeys = sorted(keys.values())
         if m == "min":
             for i in idx_nonna:
-                exp[i] = 1 + sum(1 for j in idx_nonna if keys[j] < keys[i])
+                exp[i] = 1 + bisect.bisect_left(skeys, keys[i])       # one plus the number ordered strictly before
             for i in idx_na:
                 exp[i] = 1 + nn
         elif m == "max":
             for i in idx_nonna:
-                exp[i] = sum(1 for j in idx_nonna if keys[j] <= keys[i])
+                exp[i] = bisect.bisect_right(skeys, keys[i])          # the number ordered before or equal
             for i in idx_na:
                 exp[i] = n
         else:
@@ -128,9 +164,11 @@ def execute(case):
                 except Exception:
                     pass
     else:
-        seen = []
+        seen, seen_keys = [], set()
         for c in pre:
-            if not any(canon.cell_eq(c, s) for s in seen):
+            k = c if c == canon.NA else (c[0] if c[0] != "N" else "N", c[1])
+            if k not in seen_keys:
+                seen_keys.add(k)
                 seen.append(c)
         if not canon.cells_eq(got, seen):
             res.violate("unique:wrong-values", f"unique of {kind} {canon.short(values)} gave {canon.short(got)} expected {canon.short(seen)}")
